@@ -97,3 +97,92 @@ Proof.
     apply IH. rewrite skipn_length. lia. }
   apply (H (length s)). lia.
 Qed.
+
+(* ---- encoding, and decoding what was encoded ---- *)
+Definition scalar (r : N) : Prop := r <= 1114111 /\ ~ (55296 <= r <= 57343).
+
+Lemma encode_rune_ascii r : r < 128 -> encode_rune r = [r].
+Proof. intros H. unfold encode_rune. apply N.ltb_lt in H. rewrite H. reflexivity. Qed.
+
+Lemma decode_encode r rest : scalar r ->
+  decode_runes (encode_rune r ++ rest) = r :: decode_runes rest.
+Proof.
+  intros [Hmax Hsur]. unfold encode_rune.
+  destruct (r <? 128) eqn:E1.
+  { simpl. rewrite E1. reflexivity. }
+  destruct (r <? 2048) eqn:E2.
+  { cbn [app decode_runes]. 
+    assert (H1 : (192 + r / 64 <? 128) = false) by lia. rewrite H1.
+    assert (H2 : (194 <=? 192 + r / 64) && (192 + r / 64 <=? 223) = true) by lia. rewrite H2.
+    assert (H3 : cont (128 + r mod 64) = true) by (unfold cont; lia). rewrite H3.
+    f_equal. lia. }
+  assert (Hs : is_surrogate r || (1114111 <? r) = false) by (unfold is_surrogate; lia). rewrite Hs.
+  destruct (r <? 65536) eqn:E3.
+  { cbn [app decode_runes].
+    assert (H1 : (224 + r / 4096 <? 128) = false) by lia. rewrite H1.
+    assert (H2 : (194 <=? 224 + r / 4096) && (224 + r / 4096 <=? 223) = false) by lia. rewrite H2.
+    assert (H3 : (224 <=? 224 + r / 4096) && (224 + r / 4096 <=? 239) = true) by lia. rewrite H3.
+    assert (H4 : acc3 (224 + r / 4096) (128 + (r / 64) mod 64) && cont (128 + r mod 64) = true).
+    { unfold acc3, cont.
+      destruct (224 + r / 4096 =? 224) eqn:Ea; [lia|].
+      destruct (224 + r / 4096 =? 237) eqn:Eb; lia. }
+    rewrite H4. f_equal. lia. }
+  cbn [app decode_runes].
+  assert (H1 : (240 + r / 262144 <? 128) = false) by lia. rewrite H1.
+  assert (H2 : (194 <=? 240 + r / 262144) && (240 + r / 262144 <=? 223) = false) by lia. rewrite H2.
+  assert (H3 : (224 <=? 240 + r / 262144) && (240 + r / 262144 <=? 239) = false) by lia. rewrite H3.
+  assert (H4 : (240 <=? 240 + r / 262144) && (240 + r / 262144 <=? 244) = true) by lia. rewrite H4.
+  assert (H5 : acc4 (240 + r / 262144) (128 + (r / 4096) mod 64) && cont (128 + (r / 64) mod 64)
+               && cont (128 + r mod 64) = true).
+  { unfold acc4, cont.
+    destruct (240 + r / 262144 =? 240) eqn:Ea; [lia|].
+    destruct (240 + r / 262144 =? 244) eqn:Eb; lia. }
+  rewrite H5. f_equal. lia.
+Qed.
+
+(* a non-ASCII rune is encoded with bytes >= 128 only *)
+Lemma encode_rune_high r : 128 <= r -> Forall (fun b => 128 <= b < 256) (encode_rune r).
+Proof.
+  intros H. unfold encode_rune.
+  destruct (r <? 128) eqn:E1; [lia|].
+  destruct (r <? 2048) eqn:E2; [repeat constructor; lia|].
+  destruct (is_surrogate r || (1114111 <? r)) eqn:Es; [repeat constructor; lia|].
+  unfold is_surrogate in Es.
+  destruct (r <? 65536) eqn:E3; repeat constructor; lia.
+Qed.
+
+(* every decoded rune is a scalar value *)
+Lemma decode_runes_scalar s : Forall scalar (decode_runes s).
+Proof.
+  assert (H : forall n (s : bytes), (length s <= n)%nat -> Forall scalar (decode_runes s)).
+  { induction n as [|n IH]; intros [|b0 r0] Hl; try (simpl; constructor); simpl in Hl; try lia.
+    assert (HF : Forall scalar (FFFD :: decode_runes r0)).
+    { constructor; [unfold scalar, FFFD; lia | apply IH; lia]. }
+    cbn [decode_runes].
+    destruct (b0 <? 128) eqn:E0.
+    { constructor; [unfold scalar; lia | apply IH; lia]. }
+    destruct ((194 <=? b0) && (b0 <=? 223)) eqn:E2.
+    { destruct r0 as [|b1 r1]; [exact HF|].
+      destruct (cont b1) eqn:C1; [|exact HF].
+      constructor; [unfold scalar, cont in *; lia | apply IH; simpl in *; lia]. }
+    destruct ((224 <=? b0) && (b0 <=? 239)) eqn:E3.
+    { destruct r0 as [|b1 [|b2 r2]]; try exact HF.
+      destruct (acc3 b0 b1 && cont b2) eqn:C; [|exact HF].
+      constructor; [|apply IH; simpl in *; lia].
+      unfold scalar, acc3, cont in *.
+      destruct (b0 =? 224) eqn:Ea; [lia|]. destruct (b0 =? 237) eqn:Eb; lia. }
+    destruct ((240 <=? b0) && (b0 <=? 244)) eqn:E4.
+    { destruct r0 as [|b1 [|b2 [|b3 r3]]]; try exact HF.
+      destruct (acc4 b0 b1 && cont b2 && cont b3) eqn:C; [|exact HF].
+      constructor; [|apply IH; simpl in *; lia].
+      unfold scalar, acc4, cont in *.
+      destruct (b0 =? 240) eqn:Ea; [lia|]. destruct (b0 =? 244) eqn:Eb; lia. }
+    exact HF. }
+  apply (H (length s)). lia.
+Qed.
+
+Lemma decode_encode_runes l : Forall scalar l -> decode_runes (encode_runes l) = l.
+Proof.
+  induction 1 as [|r l Hr Hl IH]; [reflexivity|].
+  unfold encode_runes in *. simpl. rewrite decode_encode by exact Hr. f_equal. exact IH.
+Qed.
